@@ -54,14 +54,16 @@ theorem loop_step (flat : List Nat) (r : Rec) (hok : r.OK) (fuel : Nat) (d : Dec
   unfold Rec.wire at hAt
   rw [List.append_assoc] at hAt
   have hts := Dec.tag_at hAt htag.1 htag.2 (Rec.wt_lt r)
-  have hAt1 := hAt.advance
-  have hsk := Dec.skip_at htag.1 htag.2 (Rec.body_wf hok) hAt1
-  have hAt2 : Dec.At { d with off := d.off + (encTag r.tag r.wt).length + r.body.length }
+  have hAt1 := hAt.afterTag
+  have hsk := Dec.skip_at htag.1 htag.2 (Rec.body_wf hok) hAt1 (by intro _; simp [hAt.off])
+  have hAt2 : Dec.At { d.afterTag (encTag r.tag r.wt).length with off := d.off + (encTag r.tag r.wt).length + r.body.length }
       (pre ++ (encTag r.tag r.wt ++ r.body)) rest := by
     have := hAt1.advance; simpa [List.append_assoc] using this
-  refine ⟨{ d with off := d.off + (encTag r.tag r.wt).length + r.body.length }, by simpa [Rec.wire] using hAt2, hfast, ?_⟩
-  have hskip : Dec.step { d with off := d.off + (encTag r.tag r.wt).length } (.skip r.tag r.wt) =
-      ({ d with off := d.off + (encTag r.tag r.wt).length + r.body.length }, .ok (.bytes (encTag r.tag r.wt ++ r.body)), 0) := by
+  refine ⟨{ d.afterTag (encTag r.tag r.wt).length with off := d.off + (encTag r.tag r.wt).length + r.body.length },
+    by simpa [Rec.wire] using hAt2, hfast, ?_⟩
+  have hskip : Dec.step (d.afterTag (encTag r.tag r.wt).length) (.skip r.tag r.wt) =
+      ({ d.afterTag (encTag r.tag r.wt).length with off := d.off + (encTag r.tag r.wt).length + r.body.length },
+        .ok (.bytes (encTag r.tag r.wt ++ r.body)), 0) := by
     show withAlloc (Dec.skip _ r.tag r.wt) 0 = _
     rw [hsk]; rfl
   rw [decodeIntoLoop]
@@ -90,11 +92,11 @@ theorem loop_step (flat : List Nat) (r : Rec) (hok : r.OK) (fuel : Nat) (d : Dec
       simp only [hskip, Rec.tag, Rec.chunk, Rec.body, drop_key t wtFixed64 htag.2 (by decide)]
     | len t b =>
       have n1 : ¬ (wtLen = wtVarint ∨ wtLen = wtFixed32 ∨ wtLen = wtFixed64) := by decide
-      have hAt1' : Dec.At { d with off := d.off + (encTag t wtLen).length } (pre ++ encTag t wtLen)
+      have hAt1' : Dec.At (d.afterTag (encTag t wtLen).length) (pre ++ encTag t wtLen)
           (encVarint b.length ++ b ++ rest) := by simpa [Rec.tag, Rec.wt, Rec.body] using hAt1
       have hb := Dec.bytes_at hAt1' hok.2.2
-      have hbytes : Dec.step { d with off := d.off + (encTag t wtLen).length } .bytes =
-          ({ d with off := d.off + (encTag t wtLen).length + (encVarint b.length ++ b).length }, .ok (.bytes b), 0) := by
+      have hbytes : Dec.step (d.afterTag (encTag t wtLen).length) .bytes =
+          ({ d.afterTag (encTag t wtLen).length with off := d.off + (encTag t wtLen).length + (encVarint b.length ++ b).length }, .ok (.bytes b), 0) := by
         show withAlloc (Dec.bytesOp _) 0 = _
         rw [hb]; rfl
       simp only [Rec.wt, Rec.tag, n1, if_false, if_true, hbytes, Rec.chunk, Rec.body]
